@@ -371,7 +371,7 @@ CHECKS = [
                      "(4 forms). " + _V1_SPACE,
             "thorough": "exhaustive: all 60 1x1 (V1 only), 3600 1x2 and 3600 2x1 formulas over the 60 alternative "
                         "forms (4 forms); all undecorated CNFs of 1..3 groups x 1..2 alternatives over the literals "
-                        "{a,-a,b,-b,x-y,-x-y} (75894 formulas; forms list, string); sampled (seeded): 1500 random "
+                        "{a,-a,b,-b,x-y,-x-y} (75894 formulas, the 6 one-literal ones being in the first part; forms list, string); sampled (seeded): 1500 random "
                         "decorations for each of the 39 size signatures 1..3 groups x 1..3 alternatives (4 forms). "
                         + _V1_SPACE,
         },
